@@ -1,7 +1,15 @@
 """Translators: regenerate RTV/Gen/*.lean from /repo's working tree (and from the running interpreter for the
-Unicode tables).  Each generator returns [(path, text)]; files are written only when their text changed."""
+Unicode tables).  Every module of this package that defines `generate()` is a generator; it returns
+[(path, text)] and files are written only when their text changed."""
+import importlib
+import os
+import pkgutil
 from collections import OrderedDict
-from . import chartables
 
 ALL = OrderedDict()
-ALL['chartables'] = chartables.generate
+for _m in sorted(pkgutil.iter_modules([os.path.dirname(__file__)]), key=lambda m: m.name):
+    if _m.name in ('leanfmt',):
+        continue
+    _mod = importlib.import_module('translate.' + _m.name)
+    if hasattr(_mod, 'generate'):
+        ALL[_m.name] = _mod.generate
